@@ -7,9 +7,10 @@ __Pyx_fits_Py_ssize_t, __Pyx_is_valid_index, GetItemInt_{List,Tuple,Unicode,Byte
 {Get,Set,Del}ItemInt_Fast slot dispatch, SliceIndexNode bound coercion, __Pyx_crop_slice + FromArray,
 __Pyx_PyUnicode_Substring, __Pyx_PyObject_{Get,Set}Slice; Py_ssize_t scaled to 8 bits.
 TLC: one state per (container, operation, length, index type | start bound [, step]); each state carries the
-row of <reference, implementation> outcomes over all index values / stop bounds; the model itself refutes
-ImplAgrees (SeqIndex_strict.cfg) through the signed overflow in __Pyx_crop_slice and the OverflowError of
-out-of-range object bounds, everything else agrees (ImplAgreesOffHazards, HazardExact).
+row of <reference, implementation> outcomes over all index values / stop bounds; C undefined behaviour is unreachable
+(NoUB, CropClamped: __Pyx_crop_slice clamps both bounds since the fix of KF-C15-1); the model itself refutes ImplAgrees
+(SeqIndex_strict*.cfg) through the OverflowError of out-of-range object bounds and the type test of extended-slice
+assignment, everything else agrees (ImplAgreesOffHazards, HazardsConfined).
 Binding B1: every published cell is executed on compiled code (generated .pyx: 6 declarations x 8 index
 typings x get/set/del, constant indices, typed/object/absent/constant slice bounds, extended slices),
 scaled type bounds mapped to the real types' bounds; S = the reference outcome, P = CPython on the same
@@ -225,7 +226,7 @@ def classes(printed):
 NEEDED = ["index:get:item", "index:get:!IndexError", "index:get:!TypeError", "index:set:sequence", "index:set:!IndexError",
           "index:set:!TypeError", "index:del:sequence", "index:del:empty", "index:del:!IndexError",
           "slice:get:sequence", "slice:get:empty", "slice:get:!TypeError", "slice:set:sequence", "slice:set:!TypeError",
-          "slice:del:sequence", "slice:del:empty", "slice:model-ub", "slice:model-bound_overflow", "xslice:model-rhs_type",
+          "slice:del:sequence", "slice:del:empty", "slice:model-bound_overflow", "xslice:model-rhs_type",
           "xslice:get:sequence", "xslice:get:empty", "xslice:get:!ValueError", "xslice:set:!ValueError", "xslice:set:sequence",
           "xslice:del:sequence", "xslice:set:!TypeError"]
 
@@ -262,31 +263,25 @@ def process(part, recs, tier, rng, rep, builds, mods, pool, acc, t0):
         rep.finish()   # exits 2
     log(t0, "%s: %d realisations, no drift" % (part, len(rs)))
 
-    # cells where the model reaches C undefined behaviour go into their own small tables (a crash costs a child restart),
-    # and only a stratified sample of them is executed: one per (function, class of bounds) first, then random ones
+    # Cells with Py_ssize_t bounds at the type extremes on list/tuple-typed slice reads (where __Pyx_crop_slice used to overflow,
+    # KF-C15-1, fixed) go into small tables of their own: the model demands the reference result there like everywhere else, and
+    # should the generated code crash again, each crash only costs the restart of a small child.
     by_mod = {}
+    extreme = set()
     for i, r in enumerate(rs):
-        by_mod.setdefault(r.mod + ("!hz" if r.desc["model"] == "ub" else ""), []).append(i)
-    hz_cap = 24 if tier == "quick" else 60
-    hz_all = sorted(i for k, v in by_mod.items() if "!" in k for i in v)
-    strata = {}
-    for i in hz_all:
-        strata.setdefault((rs[i].fn, rs[i].desc.get("bounds")), []).append(i)
-    first = [rng.choice(v) for _k, v in sorted(strata.items())]
-    rng.shuffle(first)
-    chosen = set(first[:hz_cap])
-    rest = [i for i in hz_all if i not in chosen]
-    chosen.update(rng.sample(rest, max(0, min(len(rest), hz_cap - len(chosen)))))
-    skipped_hz = set(hz_all) - chosen
-    for k in [k for k in by_mod if "!" in k]:
-        by_mod[k] = [i for i in by_mod[k] if i in chosen]
+        b = r.base
+        ext = (b["part"] == "slice" and b["op"] == "get" and b["decl"] == "typed" and b["kind"] in ("list", "tuple")
+               and "bound" in b["bounds"]) or b["model"] == "ub"
+        if ext:
+            extreme.add(i)
+        by_mod.setdefault(r.mod + ("!ext" if ext else ""), []).append(i)
     jobs = []
     for mod, idxs in sorted(by_mod.items(), key=lambda kv: -len(kv[1])):
-        step = 12 if "!" in mod else CHUNK
+        step = 150 if "!" in mod else CHUNK
         for j in range(0, len(idxs), step):
             sel = idxs[j:j + step]
             jobs.append((sel, pool.submit(safe_run_calls, builds[mod.split("!")[0]], [rs[i].call() for i in sel],
-                                          "%s_%s%d" % (part, "hz" if "!" in mod else "t", j // step))))
+                                          "%s_%s%d" % (part, "ext" if "!" in mod else "t", j // step))))
     got = [None] * len(rs)
     for sel, f in jobs:
         for i, o in zip(sel, f.result()):
@@ -295,14 +290,12 @@ def process(part, recs, tier, rng, rep, builds, mods, pool, acc, t0):
 
     nbad = 0
     for i, (r, e, o) in enumerate(zip(rs, want, got)):
-        if i in skipped_hz:
-            continue
         if o != e:
             nbad += 1
             rep.disagree(r.desc, L.obs_class(o, e, r.op), {"module": r.mod, "call": r.call()[:2], "want": e, "got": o, "spec_outcome": r.ref,
                                                             "source": [ln for ln in mods[r.mod].split("\n\n") if ("def %s(" % r.fn) in ln][:1]})
     # binding demonstration: corrupted expectations must be rejected
-    good = [i for i in range(len(rs)) if got[i] == want[i] and i not in skipped_hz]
+    good = [i for i in range(len(rs)) if got[i] == want[i]]
     for i in rng.sample(good, min(40, len(good))):
         r = rs[i]
         if L.expected_obs(corrupt(r.ref), r.op, r.kind, r.n, r.flavor) == got[i]:
@@ -310,10 +303,9 @@ def process(part, recs, tier, rng, rep, builds, mods, pool, acc, t0):
     for r in rs:
         if r.n >= 1:
             acc["distinct"].add(hash((r.fn, r.flavor, r.n, repr(r.args), repr(r.val))))
-    acc["calls"] += len(rs) - len(skipped_hz)
-    acc["per_part"][part] = acc["per_part"].get(part, 0) + len(rs) - len(skipped_hz)
-    acc["hz_all"] += len(hz_all)
-    acc["hz_run"] += len(chosen)
+    acc["calls"] += len(rs)
+    acc["per_part"][part] = acc["per_part"].get(part, 0) + len(rs)
+    acc["extreme"] += len(extreme)
     acc["model_only"] += skipped[0]
     acc["bad"] += nbad
     acc["selftest"] += min(40, len(good))
@@ -332,9 +324,9 @@ def run(tier, seed):
     f_build = pool.submit(core.build_many, [core.BuildSpec(k, v) for k, v in sorted(mods.items())], None, 7)
     w = 6 if tier == "quick" else 10
     f_tlc = [(p, cfg, tpool.submit(core.tlc, "SeqIndex", cfg, w, None, 1500 if tier == "quick" else 5000)) for p, cfg in RUNS[tier]]
-    f_strict = tpool.submit(core.tlc, "SeqIndex", "SeqIndex_strict", 2, None, 600)
+    f_strict = [(cfg, tpool.submit(core.tlc, "SeqIndex", cfg, 2, None, 600)) for cfg in ("SeqIndex_strict", "SeqIndex_strict_x")]
 
-    acc = {"distinct": set(), "calls": 0, "per_part": {}, "hz_all": 0, "hz_run": 0, "model_only": 0, "bad": 0, "selftest": 0, "samples": []}
+    acc = {"distinct": set(), "calls": 0, "per_part": {}, "extreme": 0, "model_only": 0, "bad": 0, "selftest": 0, "samples": []}
     states = distinct = cells = 0
     kl = {}
     builds = None
@@ -371,13 +363,18 @@ def run(tier, seed):
             log(t0, "builds done")
         process(p, recs, tier, rng, rep, builds, mods, pool, acc, t0)
         del recs
-    r = f_strict.result()
-    cov["tlc"].append(dict(r.summary(), config="SeqIndex_strict", expected_violation="ImplAgrees", violation=r.violation))
-    states += r.generated
-    distinct += r.distinct
-    if r.violation != "ImplAgrees":
-        sys.stderr.write(r.out[-3000:])
-        core.die("SeqIndex_strict: TLC was expected to refute ImplAgrees (the model's crop_slice hazard), got %r" % (r.violation,))
+    # the unrestricted property must be refuted by the model where deviations still exist (KF-C15-2 in the slice part,
+    # KF-C15-3 in the extended-slice part); NoUB is listed first in those configs and must not be what fails
+    for cfg, f in f_strict:
+        r = f.result()
+        cov["tlc"].append(dict(r.summary(), config=cfg, expected_violation="ImplAgrees", violation=r.violation))
+        states += r.generated
+        distinct += r.distinct
+        if r.violation != "ImplAgrees":
+            sys.stderr.write(r.out[-3000:])
+            core.die("%s: TLC was expected to refute ImplAgrees (and nothing else), got %r" % (cfg, r.violation))
+    if any(k.endswith(":model-ub") for k in kl):
+        core.die("the model reaches C undefined behaviour although NoUB passed: %r" % {k: v for k, v in kl.items() if "model-ub" in k})
     pool.shutdown()
     tpool.shutdown()
     cov["model_case_classes"] = kl
@@ -389,7 +386,7 @@ def run(tier, seed):
         "states": states, "distinct_states": distinct, "transitions": states,
         "traces_validated_against_impl": acc["calls"], "evaluations": acc["calls"], "distinct_nontrivial": len(acc["distinct"]),
         "exhaustive": True, "model_cells": cells, "model_only_cells_not_replayed": acc["model_only"],
-        "model_hazard_cells": acc["hz_all"], "model_hazard_cells_executed": acc["hz_run"],
+        "type_extreme_list_tuple_slice_calls": acc["extreme"],
         "calls_per_part": acc["per_part"], "functions_compiled": sum(v.count("def ") for v in mods.values()),
         "disagreeing_calls": acc["bad"], "corrupted_expectations_rejected": acc["selftest"],
         "rule": "TLC enumerates every (declaration typed/object x kind, operation, length -1(None)..MaxLen, index type, index value in "
